@@ -28,6 +28,8 @@ structure NetDrv where
   cut : List (Nat × Nat) := []
   hist : List (List Nat) := []
   obs : List Nat := []
+  reachM : List (List (Option Nat)) := []     -- contact table along the model's run
+  reachO : List (List (Option Nat)) := []     -- contact table along the logged run
 
 def connOf (grp : List Nat) (cut : List (Nat × Nat)) : Nat → Nat → Bool :=
   fun i j => grp.getD i 0 == grp.getD j 0 && !cut.contains (i, j)
@@ -54,8 +56,11 @@ def parseNats (t : String) : Option (List Nat) := (t.splitOn ",").mapM String.to
 def tokenVal (f : List String) (key : String) : Option String :=
   (f.find? (·.startsWith key)).map fun t => String.ofList (t.toList.drop key.length)
 
-/-- E1–E4 on one transition; `upA/upB`, `cA/cB` before / after the op -/
-def envelope (n thr : Nat) (old new : List Nat) (upA upB : List Bool) (cA cB : Nat → Nat → Bool) (round : Nat) : Option String :=
+/-- E1–E4 on one transition; `upA/upB`, `cA/cB` before / after the op; `reach i k`: the highest round node k can
+have signed (head + 1, capped by the clock round) at the end of an op during which it was running and linked to i — such a
+partial may still sit in i's cache -/
+def envelope (n thr : Nat) (old new : List Nat) (upA upB : List Bool) (cA cB : Nat → Nat → Bool) (round : Nat)
+    (reach : Nat → Nat → Option Nat) : Option String :=
   let up := fun i => upA.getD i false || upB.getD i false
   let link := fun i j => (cA i j && cA j i) || (cB i j && cB j i)
   (List.range n).findSome? fun i =>
@@ -66,9 +71,20 @@ def envelope (n thr : Nat) (old new : List Nat) (upA upB : List Bool) (cA cB : N
     else if b > round then some s!"E3:node{i}:{b}>round{round}"
     else if b > a then
       let viaPeer := (List.range n).any fun j => j != i && up j && link i j && new.getD j 0 ≥ b
-      let signers := ((List.range n).filter fun j => up j && (j == i || link i j) && new.getD j 0 + 1 ≥ b).length
+      let signers := ((List.range n).filter fun k =>
+        (k == i && new.getD k 0 + 1 ≥ b) || (match reach i k with | some hk => hk ≥ b | none => false)).length
       if viaPeer || signers ≥ thr then none else some s!"E4:node{i}:{a}->{b}:signers{signers}<thr{thr}"
     else none
+
+/-- update of the contact table after an op: k was running and could call i before or after the op -/
+def updReach (n : Nat) (reach : List (List (Option Nat))) (new : List Nat) (upA upB : List Bool) (cA cB : Nat → Nat → Bool)
+    (round : Nat) : List (List (Option Nat)) :=
+  (List.range n).map fun i => (List.range n).map fun k =>
+    let prev := (reach.getD i []).getD k none
+    if (upA.getD k false || upB.getD k false) && (cA k i || cB k i) then
+      -- a node signs head + 1 (or re-signs its head) and never a round above its clock round
+      some (max (prev.getD 0) (min (new.getD k 0 + 1) round))
+    else prev
 
 def applyOp (d : NetDrv) (f : List String) : Option NetDrv :=
   let n := d.s.n
@@ -105,7 +121,8 @@ def netStep (d : NetDrv) (f : List String) : NetDrv × String :=
     | some n, some thr, some k, some slack =>
       if n = 0 ∨ k = 0 ∨ n > 64 then (d, "bad-op") else
       let s := State.init n thr
-      ({ s := s, k := k, slack := slack, grp := List.replicate n 0, hist := [heads s], obs := heads s },
+      let r0 := (List.range n).map fun _ => (List.range n).map fun _ => some 0
+      ({ s := s, k := k, slack := slack, grp := List.replicate n 0, hist := [heads s], obs := heads s, reachM := r0, reachO := r0 },
         s!"m={showNats (heads s)} r=0 x=1 v=-")
     | _, _, _, _ => (d, "bad-op")
   | _ =>
@@ -118,12 +135,14 @@ def netStep (d : NetDrv) (f : List String) : NetDrv × String :=
       let round := (s1.node 0).clock
       let hist := mh :: d1.hist
       -- M: the envelope must admit the model's own transition
-      let selfCheck := envelope s1.n s1.thr (heads s0) mh (ups s0) (ups s1) s0.conn s1.conn round
+      let reachM := updReach s1.n d1.reachM mh (ups s0) (ups s1) s0.conn s1.conn round
+      let lookup := fun (t : List (List (Option Nat))) i k => (t.getD i []).getD k none
+      let selfCheck := envelope s1.n s1.thr (heads s0) mh (ups s0) (ups s1) s0.conn s1.conn round (lookup reachM)
       let isEnd := f.head? == some "end"
       match tokenVal f "o=" with
       | none =>
         let v := match selfCheck with | some e => s!"bad:M:{e}" | none => "-"
-        ({ d1 with s := s1, hist := hist }, s!"m={showNats mh} r={round} x=- v={v}")
+        ({ d1 with s := s1, hist := hist, reachM := reachM }, s!"m={showNats mh} r={round} x=- v={v}")
       | some t =>
         match parseNats t with
         | none => (d, "bad-op")
@@ -131,6 +150,7 @@ def netStep (d : NetDrv) (f : List String) : NetDrv × String :=
           if o.length != s1.n then (d, "bad-op") else
           let robs := (tokenVal f "r=").bind String.toNat?
           let exact := if o == mh then "1" else "0"
+          let reachO := updReach s1.n d1.reachO o (ups s0) (ups s1) s0.conn s1.conn round
           let lagRef := hist.getD d1.slack (hist.getLastD [])
           let lag := (List.range s1.n).findSome? fun i =>
             if (s1.node i).up && o.getD i 0 < lagRef.getD i 0 then some s!"L:node{i}:{o.getD i 0}<{lagRef.getD i 0}" else none
@@ -143,12 +163,12 @@ def netStep (d : NetDrv) (f : List String) : NetDrv × String :=
             | some e => s!"bad:M:{e}"
             | none =>
               if robs.isSome && robs != some round then s!"bad:R:round{robs.getD 0}!={round}" else
-              match envelope s1.n s1.thr d1.obs o (ups s0) (ups s1) s0.conn s1.conn round with
+              match envelope s1.n s1.thr d1.obs o (ups s0) (ups s1) s0.conn s1.conn round (lookup reachO) with
               | some e => s!"bad:{e}"
               | none =>
                 match lag with
                 | some e => s!"bad:{e}"
                 | none => match cur with | some e => s!"bad:{e}" | none => "ok"
-          ({ d1 with s := s1, hist := hist, obs := o }, s!"m={showNats mh} r={round} x={exact} v={v}")
+          ({ d1 with s := s1, hist := hist, obs := o, reachM := reachM, reachO := reachO }, s!"m={showNats mh} r={round} x={exact} v={v}")
 
 end Drand.Driver
